@@ -4,8 +4,14 @@ go 1.15
 
 require (
 	github.com/cenkalti/backoff/v4 v4.2.0
+	github.com/cockroachdb/pebble v0.0.0-20230104192001-3d9c6101a3a1
+	github.com/jacobsa/fuse v0.0.0-20220531202254-21122235c77a
+	github.com/minio/blake2b-simd v0.0.0-20160723061019-3f5f724cb5b1
 	github.com/oneconcern/datamon v0.0.0
+	github.com/segmentio/ksuid v1.0.4
 	github.com/spf13/afero v1.9.3
+	go.uber.org/zap v1.24.0
+	gopkg.in/yaml.v2 v2.4.0
 )
 
 replace github.com/oneconcern/datamon => /repo
